@@ -661,7 +661,7 @@ Section FluxScript.
   Definition finf (ps : list piece) : str := segs_text (map (final_seg (tsub_flux c) (bsub_flux c)) ps).
 
   Lemma flux_lines_comments : forallb comment_line (flat_map (split_on nl) lines) = true.
-  Proof. apply comment_lines_flat. apply (flux_lines_ok c HP FP BP w Wnl). Qed.
+  Proof. apply comment_lines_flat. apply (flux_lines_ok c HP FP BP BE w Wnl). Qed.
 
   Lemma flux_exec_shell : flux_exec b = shell_of (b_kw b).
   Proof. reflexivity. Qed.
@@ -794,7 +794,7 @@ Proof.
     set (cmd' := segs_text (map (final_seg (tsub_flux c) (bsub_flux c)) (c_cmd c))).
     set (rst' := segs_text (map (final_seg (tsub_flux c) (bsub_flux c)) (c_restart c))).
     assert (G1 : flux_script_ok c (c_cmd c) (join [nl] lines ++ nl :: nl :: cmd' ++ [nl]) = true).
-    { apply (flux_script_good c HP FP BP w x); auto. apply (hp_cmd_wf c HP). apply (hp_cmd_start c HP). }
+    { apply (flux_script_good c HP FP BP BE w x); auto. apply (hp_cmd_wf c HP). apply (hp_cmd_start c HP). }
     unfold restart_part.
     assert (CRd : c_restart c = [] \/ c_restart c <> []) by (destruct (c_restart c); [left|right]; congruence).
     destruct CRd as [CR|CR].
@@ -805,7 +805,7 @@ Proof.
     + assert (SR : starts_cmd (c_restart c) = true).
       { pose proof (hp_restart_start c HP) as X. destruct (c_restart c); auto; congruence. }
       assert (G2 : flux_script_ok c (c_restart c) (join [nl] lines ++ nl :: nl :: rst' ++ [nl]) = true).
-      { apply (flux_script_good c HP FP BP w x); auto. apply (hp_restart_wf c HP). }
+      { apply (flux_script_good c HP FP BP BE w x); auto. apply (hp_restart_wf c HP). }
       assert (NE : rst' <> []).
       { destruct (finf_start c (c_restart c)) as [c0 [t [E CS]]]; auto.
         { apply (hp_restart_wf c HP). }
@@ -823,7 +823,7 @@ Proof.
     destruct (flux_name_ok flux_script_name (st_name st) (or_introl eq_refl)) as [nm1 N1]. rewrite N1. cbn [bind].
     rewrite flux_body_eq. cbn [bind].
     assert (G1 : verbatim_ok c (st_cmd st) (join [nl] lines ++ nl :: nl :: st_cmd st ++ [nl]) = true).
-    { pose proof (hp_cmd c HP) as E. fold st in E. rewrite <- E. apply (flux_verbatim c HP FP BP w); auto.
+    { pose proof (hp_cmd c HP) as E. fold st in E. rewrite <- E. apply (flux_verbatim c HP FP BP BE w); auto.
       apply (hp_cmd_wf c HP). apply (hp_cmd_start c HP). }
     unfold restart_part.
     destruct (st_restart st) as [|r0 r1] eqn:RS.
